@@ -109,6 +109,10 @@ var lockTypeRes = map[string][]struct {
 	"stream.go": {
 		{regexp.MustCompile(`(?m)^(\tlock\s+)sync\.RWMutex$`), "${1}vLkStream"},
 		{regexp.MustCompile(`(?m)^(\twriteLock\s+)sync\.Mutex$`), "${1}vLkWrite"},
+		// the read-deadline goroutine is queued instead of started: harnesses run it at the
+		// point of the scenario where the deadline passes (vRunSpawned)
+		{regexp.MustCompile(`(?m)^(\s*)go func\(readTimeoutCancel chan struct\{\}\) \{$`), "${1}vSpawnCh(func(readTimeoutCancel chan struct{}) {"},
+		{regexp.MustCompile(`(?m)^(\s*)\}\(s\.readTimeoutCancel\)$`), "${1}}, s.readTimeoutCancel)"},
 	},
 }
 
@@ -515,6 +519,7 @@ type nativeCase struct {
 	Tier     int        `json:"tier"`
 	Hang     bool       `json:"hang"` // expected to block: run alone in its own process under a short watchdog
 	Skip     bool       `json:"skip"`
+	Race     bool       `json:"race"` // lockset report: run alone under the race detector
 }
 
 type nativeOut struct {
@@ -560,7 +565,11 @@ func runNative(cases []nativeCase, names []string, tag string) ([]nativeOut, str
 	os.WriteFile(casesPath, cb, 0o644)
 	outPath := filepath.Join(buildDir, "out.jsonl")
 	os.Remove(outPath)
-	cmd := exec.Command("go", "test", "-tags", "verif", "-vet=off", "-count=1", "-timeout", "20m", "-run", "^TestVerifReplay$", "-overlay", ovPath, ".")
+	args := []string{"test", "-tags", "verif", "-vet=off", "-count=1", "-timeout", "20m", "-run", "^TestVerifReplay$", "-overlay", ovPath}
+	if len(cases) == 1 && cases[0].Race {
+		args = append(args, "-race")
+	}
+	cmd := exec.Command("go", append(args, ".")...)
 	cmd.Dir = repoDir
 	cmd.Env = append(goEnv(), "VERIF_CASES="+casesPath, "VERIF_OUT="+outPath)
 	outb, err := cmd.CombinedOutput()
@@ -581,6 +590,43 @@ func runNative(cases []nativeCase, names []string, tag string) ([]nativeOut, str
 		outs = append(outs, o)
 	}
 	return outs, log, nil
+}
+
+// raceConfirms: the race detector reported a race, and the function in which the engine saw
+// the unguarded access appears in the report.
+func raceConfirms(log, where string) bool {
+	if !strings.Contains(log, "WARNING: DATA RACE") {
+		return false
+	}
+	fn := strings.TrimSpace(where)
+	if i := strings.Index(fn, " "); i > 0 {
+		fn = fn[:i]
+	}
+	if i := strings.LastIndex(fn, "."); i >= 0 {
+		fn = fn[i+1:]
+	}
+	fn = strings.TrimRight(fn, "0123456789$") // closures: func1 -> func
+	return fn == "" || strings.Contains(log, "."+fn)
+}
+
+// raceSummary extracts the first two frames of the first race report.
+func raceSummary(log string) string {
+	i := strings.Index(log, "WARNING: DATA RACE")
+	if i < 0 {
+		return ""
+	}
+	lines := strings.Split(log[i:], "\n")
+	var out []string
+	for _, l := range lines[1:] {
+		l = strings.TrimSpace(l)
+		if strings.HasPrefix(l, "github.com/pion/sctp.") {
+			out = append(out, l)
+			if len(out) == 2 {
+				break
+			}
+		}
+	}
+	return "race detector: " + strings.Join(out, " <- ")
 }
 
 type replayDoc struct {
@@ -610,14 +656,17 @@ func replayFile(path string) int {
 		fmt.Fprintln(os.Stderr, err)
 		return 2
 	}
-	outs, log, err := runNative([]nativeCase{{Harness: d.Harness, Vector: d.Vector, Realtime: true, Tier: d.Tier, Hang: d.Kind == "blocked"}}, allHarnessNames(pkg), "replay")
+	outs, log, err := runNative([]nativeCase{{Harness: d.Harness, Vector: d.Vector, Realtime: true, Tier: d.Tier, Hang: d.Kind == "blocked", Race: d.Kind == "unguarded"}}, allHarnessNames(pkg), "replay")
 	if err != nil {
 		fmt.Fprintln(os.Stderr, err, log)
 		return 2
 	}
 	for _, o := range outs {
 		fmt.Printf("native replay of %s: outcome=%s msg=%s\n", d.Harness, o.Outcome, o.Msg)
-		if o.Outcome == "assert" || o.Outcome == "panic" || (d.Kind == "blocked" && o.Outcome == "hang") {
+		if d.Kind == "unguarded" && raceConfirms(log, d.Where) {
+			o.Outcome = "race"
+		}
+		if o.Outcome == "assert" || o.Outcome == "panic" || (d.Kind == "blocked" && o.Outcome == "hang") || (d.Kind == "unguarded" && o.Outcome == "race") {
 			fmt.Printf("VIOLATION property=%s replay=%s\n", d.Property, path)
 			return 1
 		}
@@ -650,13 +699,13 @@ func finish(prop string, tier, seed int, partial bool, results []HarnessResult, 
 			refs = append(refs, caseRef{res: r, val: &r.Validations[j]})
 		}
 		for j := range r.Violations {
-			blk := r.Violations[j].Kind == "blocked"
-			cases = append(cases, nativeCase{Harness: r.Name, Vector: r.Violations[j].Vector, Realtime: true, Tier: tier, Hang: blk, Skip: blk})
+			blk, race := r.Violations[j].Kind == "blocked", r.Violations[j].Kind == "unguarded"
+			cases = append(cases, nativeCase{Harness: r.Name, Vector: r.Violations[j].Vector, Realtime: true, Tier: tier, Hang: blk, Race: race, Skip: blk || race})
 			refs = append(refs, caseRef{res: r, viol: &r.Violations[j]})
 		}
 		for j := range r.Known {
-			blk := r.Known[j].Kind == "blocked"
-			cases = append(cases, nativeCase{Harness: r.Name, Vector: r.Known[j].Vector, Realtime: true, Tier: tier, Hang: blk, Skip: blk})
+			blk, race := r.Known[j].Kind == "blocked", r.Known[j].Kind == "unguarded"
+			cases = append(cases, nativeCase{Harness: r.Name, Vector: r.Known[j].Vector, Realtime: true, Tier: tier, Hang: blk, Race: race, Skip: blk || race})
 			refs = append(refs, caseRef{res: r, viol: &r.Known[j], knwn: true})
 		}
 		if r.EngineError != "" {
@@ -684,10 +733,13 @@ func finish(prop string, tier, seed int, partial bool, results []HarnessResult, 
 					continue
 				}
 				c.Skip = false
-				o1, log1, err1 := runNative([]nativeCase{c}, names, prop+"-"+tierName+"-hang")
+				o1, log1, err1 := runNative([]nativeCase{c}, names, prop+"-"+tierName+"-solo")
 				if err1 != nil || len(o1) != 1 {
-					fmt.Fprintf(os.Stderr, "native run of blocking case failed: %v\n%s\n", err1, tail(log1, 2000))
+					fmt.Fprintf(os.Stderr, "native solo run failed: %v\n%s\n", err1, tail(log1, 2000))
 					continue
+				}
+				if c.Race && raceConfirms(log1, refs[i].viol.Where) {
+					o1[0].Outcome, o1[0].Msg = "race", raceSummary(log1)
 				}
 				o1[0].Idx = i
 				byIdx[i] = o1[0]
@@ -719,6 +771,9 @@ func finish(prop string, tier, seed int, partial bool, results []HarnessResult, 
 					reproduced := o.Outcome == "assert" || o.Outcome == "panic"
 					if ref.viol.Kind == "blocked" {
 						reproduced = o.Outcome == "hang"
+					}
+					if ref.viol.Kind == "unguarded" {
+						reproduced = o.Outcome == "race"
 					}
 					d := replayDoc{Tier: tier, Property: prop, Harness: ref.res.Name, Kind: ref.viol.Kind, Msg: ref.viol.Msg, Where: ref.viol.Where, Vector: ref.viol.Vector, Native: o.Outcome + ": " + o.Msg}
 					if ref.knwn {
